@@ -386,7 +386,7 @@ ATTEMPTED = {"C12x": PROPERTIES.pop("_C12_attempted")}
 
 # Obligations whose single query did not finish on this machine (30 GB / 60-90 min): tier "attempted".
 # They are NOT part of quick_cmd / thorough_cmd and not part of any claim; `./check <ID> --tier attempted` runs them.
-ATTEMPTED_IDS = {"O13.1c", "O13.1d", "O13.1e", "O13.1f", "O13.1g", "O13.3c", "O8.2", "O8.3", "O7.4a", "O7.4b", "O7.4c", "O10.4", "O10.1a"}
+ATTEMPTED_IDS = {"O13.1c", "O13.1d", "O13.1e", "O13.1f", "O13.1g", "O13.3c", "O8.2", "O8.3", "O7.4a", "O7.4b", "O7.4c", "O10.4", "O10.1a", "O8.1"}
 for _p in list(PROPERTIES.values()) + list(ATTEMPTED.values()):
     for _o in _p["obligations"]:
         if _o["id"] in ATTEMPTED_IDS:
